@@ -100,7 +100,10 @@ if prop == 'C11':
     TEMPLATES = ['let s = { a = V; }; in let inherit (s) a; in { x = a; }', 'let a = V; in { inherit a; x = a; }', 'let s = { a = V; }; in rec { inherit (s) a; x = a; }',
                  'with { a = V; }; { x = a; }', 'with { a = V; }; with { b = 1; }; { x = a; }', 'with { a = 1; }; with { a = V; }; { x = a; }', 'let e = { a = V; }; in with e; { x = a; }',
                  'let s = { a = r; }; r = V; in let inherit (s) a; in { x = a; }', 'let a = V; in let b = a; in { x = b; }', 'let s = { a = V; b = 2; }; in let inherit (s) a b; in { x = a; y = b; }',
-                 '{ pkgs }: let s = { a = V; }; in let inherit (s) a; in { x = a; }', 'let a = V; in mk { x = a; }', 'let a = V; in assert c; { x = a; }', '{ pkgs }: let a = V; in { x = a; }']
+                 '{ pkgs }: let s = { a = V; }; in let inherit (s) a; in { x = a; }', 'let a = V; in mk { x = a; }', 'let a = V; in assert c; { x = a; }', '{ pkgs }: let a = V; in { x = a; }',
+                 # seventh round: a sibling attribute spelled like the let binding — in a non-recursive set the reference still means the let binding
+                 'let a = V; in mk { x = a; a = 2; }', 'let a = V; in { x = a; a = 2; }', 'let a = 1; in rec { x = a; a = V; }', 'let a = V; in assert c; { x = a; a = 2; }',
+                 'let a = V; in mk (f { x = a; a = 2; })', 'let a = V; in { y = 0; x = a; /* c */ a = 2; }']
     # listed (F-46): a call/assert wrapper between the let and the set under a lambda head, or with an inherited name — overwritten instead of redirected
     for tpl in TEMPLATES:
         for old, new in [('5', '9'), ('"o"', '"n"'), ('[ 1 ]', '{ k = 1; }')]:
@@ -109,7 +112,7 @@ if prop == 'C11':
             except Exception as ex: got = 'EXC:' + type(ex).__name__
             if got != want: viol.append({'doc': src, 'path': ['x'], 'what': 'set through a reference (inherit / with / alias chain) rewrote the wrong binding', 'got': got, 'expected': want})
             # the same edit through the mapping API: document-level item access, then assignment through the identifier
-            if old == '5' and 'mk {' not in tpl and 'assert c;' not in tpl:        # behind a call / assert wrapper item access cannot see the let (explicit ResolutionError; the wrapper gap of F-27 / F-46)
+            if old == '5' and 'mk ' not in tpl and 'assert c;' not in tpl:        # behind a call / assert wrapper item access cannot see the let (explicit ResolutionError; the wrapper gap of F-27 / F-46)
                 count('reference-templates/api')
                 try:
                     d_ = parse(src + '\n'); d_['x'].value = 9; got2 = ' '.join(d_.rebuild().split())
